@@ -1,6 +1,6 @@
 /-
   C05 — candidate clusters group protoclusters by the documented kinds.
-  Property theorems only; helper lemmas in ASV/Proofs/{MergeSets,Candidates,Coverage,Members,SpecBridge,NoDup,Passes,Total,HybridWindow,PermInvariant,RingFacts,RingInterleaved,NoDupRing,RingHybrid}.lean.
+  Property theorems only; helper lemmas in ASV/Proofs/{MergeSets,Candidates,Coverage,Members,SpecBridge,NoDup,Passes,Total,HybridWindow,PermInvariant,RingFacts,RingInterleaved,NoDupRing,RingHybrid,SortModel,SortLinear}.lean.
 
   Model: ASV/Model/Candidates.lean (formation.py after the repairs D16, D19, D501–D507).
   `formation ps wrap` is `create_candidates_from_protoclusters(protoclusters, circular_wrap_point)`;
@@ -8,7 +8,7 @@
   only hypothesis on the input is `ps.Nodup` (no protocluster object supplied twice), and only where
   counting is involved.  Every theorem holds for all inputs, linear and circular, of any size.
 -/
-import ASV.Proofs.RingHybrid
+import ASV.Proofs.SortLinear
 namespace ASV.C05
 open ASV ASV.CC ASV.CC.Spec
 
@@ -300,6 +300,32 @@ theorem formation_perm_needs_distinct_keys :
     summary (formation [⟨1, .simple ⟨80, 130, .fwd⟩, .simple ⟨90, 120, .fwd⟩, [1], "a"⟩,
                         ⟨0, .simple ⟨80, 130, .fwd⟩, .simple ⟨90, 120, .fwd⟩, [1], "a"⟩] none) =
       some [(.hybrid, [1, 0])] := by decide +kernel
+
+/-! ### 7. the sorting the model performs -/
+
+/-- `pySort` (CPython's `list.sort` for short lists: `count_run`, then binary insertion — what the
+    model uses wherever the code sorts with `CDSCollection.__lt__`) returns exactly the stable
+    insertion sort whenever `<` is a strict weak order: for consistent comparisons nothing depends on
+    the algorithm or on the 64-element limit of the modelled variant. -/
+theorem sort_model_is_the_stable_sort {α : Type} [DecidableEq α] (lt : α → α → Bool) (w : WeakOrder lt)
+    (l : List α) (hn : l.Nodup) : pySort lt l = sortBy lt l :=
+  pySort_eq_sortBy w hn
+
+/-- on a linear record (single-part extents) `CDSCollection.__lt__` *is* such an order — start
+    ascending, then longer first — so `sorted(candidates)` and `_sorted_protoclusters` are the plain
+    stable sorts by that key (the latter of the list pre-sorted by product and core) -/
+theorem sorting_on_a_line_is_by_start_then_length :
+    (∀ (cs : List Cand), cs.Nodup → (∀ c, c ∈ cs → ∃ p, c.loc = .simple p ∧ p.lo ≤ p.hi) →
+      sortCands cs = sortBy (fun a b => locKeyLt a.loc b.loc) cs) ∧
+    (∀ (ps : List Proto), ps.Nodup → (∀ p, p ∈ ps → ∃ q, p.loc = .simple q ∧ q.lo ≤ q.hi) →
+      sortProtos ps = sortBy (fun a b => locKeyLt a.loc b.loc) (sortBy tieLt ps)) :=
+  ⟨fun cs hn hs => sortCands_linear hn hs, fun ps hn hs => sortProtos_linear hn hs⟩
+
+/-- … whereas on a circular record it is not: a whole-record extent and an origin-spanning one are
+    each "smaller" than the other, which is why the algorithm itself is modelled -/
+theorem collection_order_inconsistent_on_a_ring :
+    locLt (.simple ⟨0, 100, .fwd⟩) (.compound [⟨90, 100, .fwd⟩, ⟨0, 10, .fwd⟩]) = true ∧
+    locLt (.compound [⟨90, 100, .fwd⟩, ⟨0, 10, .fwd⟩]) (.simple ⟨0, 100, .fwd⟩) = true := by decide
 
 /-- Not proved: the composition of the three passes with the coordinate table equals `Spec.reference`
     (the correspondence compares every implementation output with it).  The per-pass theorems of
